@@ -166,6 +166,10 @@ def invalidateTags (s : St) (upd rst add : IdSet) : St :=
       (n, { t with unc := u })
   inherit { s with tags := tags }
 
+/-- `invalidatedDuringTaggingJob`: edits of tags while a tagging job runs are re-applied at its completion -/
+def invalidatedDuringTaggingJob (s : St) (ids : IdSet) : St :=
+  if s.tag then { s with rst := union s.rst ids } else s
+
 /-- `invalidateConverters` -/
 def invalidateConverters (s : St) (upd : IdSet) : St :=
   s.convs.foldl (fun s c =>
@@ -363,6 +367,7 @@ def markUpdate (s : St) (name : String) (addIds delIds : List Nat) : St × Res :
         if t1.mat.isEmpty then { t1 with defn := "id:-1" } else { t1 with defn := mkQuery t1.mat }
     let s := setTag s name t
     let s := inherit s
+    let s := invalidatedDuringTaggingJob s t.unc
     let s := match sget s.tags name with
       | some t' => setTag s name { t' with unc := prevU }
       | none => s
@@ -393,7 +398,7 @@ def step (s : St) (e : Ev) (st : Started) : St × Res :=
                             used := lock s.used ords,
                             upd := union s.upd upd, rst := union s.rst rst, add := union s.add add }
           let s := invalidateTags s upd rst add
-          invalidateConverters s upd
+          invalidateConverters (invalidateConverters s upd) rst
       let s := { s with queue := s.queue.drop processed }
       let s := if s.queue.isEmpty then s else startImport s
       let s := startTagging s st.tag
@@ -494,6 +499,7 @@ def step (s : St) (e : Ev) (st : Started) : St × Res :=
           let s := (after.filter (fun r => !before.contains r)).foldl (fun s r => addRefBy s r name) s
           let s := setTag s name nt
           let s := inherit s
+          let s := invalidatedDuringTaggingJob s (rangeSet s.all)
           let s := startTagging s st.tag
           let s := startConverter s
           (s, .ok)
